@@ -145,8 +145,10 @@ void harness(void)
     res = conf_read("f");
 
 #ifdef REPLAY
-    if (res != 0)
+    if (res != 0) {
+        VP_COVER(1, "opt: the text was rejected (error path)");
         unchanged();
+    }
 #ifdef EXPECT_OK
     VP_ASSERT(res == 0, "C16: a text in the documented syntax is accepted");
 #endif
